@@ -37,8 +37,12 @@ func valBuild(name string, seed uint64) *lib.Build {
 		b.PutFile("sub/one.bin", rb(lib.BS))
 		b.PutFile("sub/deep/two.bin", rb(lib.BS+1))
 		b.PutFile("sub/deep/empty.bin", nil)
-		b.PutFile("sib/one.bin", rb(777))
+		// the sibling mirrors sub/: same child names, some with identical content (a directory
+		// replaced by a symlink to it then looks partly valid when read through the link)
+		b.PutFile("sib/one.bin", b.E["sub/one.bin"].Data)
 		b.PutFile("sib/deep/two.bin", rb(888))
+		b.PutFile("sib/deep/empty.bin", nil)
+		b.PutDir("sib/hollow2")
 		b.PutDir("hollow")
 		b.PutDir("sub/hollow2")
 		b.PutSymlink("lnk-file", "top.bin")
